@@ -113,6 +113,35 @@ class Quaternion : public Vector4d {
     }
 
     static Quaternion fromMatrix (const Matrix3d &mat) {
+#ifndef RBDL_USE_CASADI_MATH
+      // For rotations by (nearly) half a turn the trace is (close to) -1 and
+      // w vanishes: divide by the largest component instead.
+      Scalar trace = mat(0,0) + mat(1,1) + mat(2,2);
+      if (trace <= 0.) {
+        if (mat(0,0) >= mat(1,1) && mat(0,0) >= mat(2,2)) {
+          Scalar x = std::sqrt (1. + mat(0,0) - mat(1,1) - mat(2,2)) * 0.5;
+          return Quaternion (
+              x,
+              (mat(0,1) + mat(1,0)) / (x * 4.),
+              (mat(0,2) + mat(2,0)) / (x * 4.),
+              (mat(1,2) - mat(2,1)) / (x * 4.));
+        } else if (mat(1,1) >= mat(2,2)) {
+          Scalar y = std::sqrt (1. - mat(0,0) + mat(1,1) - mat(2,2)) * 0.5;
+          return Quaternion (
+              (mat(0,1) + mat(1,0)) / (y * 4.),
+              y,
+              (mat(1,2) + mat(2,1)) / (y * 4.),
+              (mat(2,0) - mat(0,2)) / (y * 4.));
+        } else {
+          Scalar z = std::sqrt (1. - mat(0,0) - mat(1,1) + mat(2,2)) * 0.5;
+          return Quaternion (
+              (mat(0,2) + mat(2,0)) / (z * 4.),
+              (mat(1,2) + mat(2,1)) / (z * 4.),
+              z,
+              (mat(0,1) - mat(1,0)) / (z * 4.));
+        }
+      }
+#endif
       Scalar w = std::sqrt (1. + mat(0,0) + mat(1,1) + mat(2,2)) * 0.5;
       return Quaternion (
           (mat(1,2) - mat(2,1)) / (w * 4.),
